@@ -157,6 +157,23 @@ std::string checkSource(const G &g, const Model &m, const WRef &r, unsigned s, b
             observer = "tree-consistency";
             return S + "dist[" + std::to_string(v) + "]=" + fmt(dist[v]) + " != dist[" + std::to_string(p) + "]+w=" + fmt(dist[p] + w);
         }
+        // the predecessors form a tree rooted at the source: following them from v reaches s within V steps
+        {
+            unsigned cur = v;
+            size_t steps = 0;
+            while (cur != s && steps <= V) {
+                if (pred[cur] >= V) {
+                    steps = V + 1;
+                    break;
+                }
+                cur = pred[cur];
+                ++steps;
+            }
+            if (cur != s || steps > V) {
+                observer = "tree-consistency";
+                return S + "following the predecessors from " + std::to_string(v) + " does not lead back to the source (no tree)";
+            }
+        }
         // tie detection (for the non-triviality rule)
         int routes = 0;
         for (unsigned u = 0; u < V; ++u)
@@ -230,6 +247,11 @@ void run(const Case &c, verif_result *out) {
             for (auto &e : s.edges) {
                 double w = (double)(e.x < 0 ? -e.x : e.x) / 7.0;
                 UPair k = m.key(e.i, e.j);
+                if (e.remove) {
+                    g.removeEdge(e.i, e.j);
+                    m.e.erase(k);
+                    continue;
+                }
                 g.addEdge(e.i, e.j, w);
                 if (!m.e.count(k)) {
                     MVal v;
